@@ -1438,7 +1438,11 @@ MANIFEST = {
             "the pRRT theorems are about, with RealVector distance/interpolation, brute-force nearest, range steering, goal test "
             "and solve()'s epilogue (report) executable in Lean: the run must be an execution of the model, bit for bit; an "
             "independent Python oracle re-derives per-worker program order, every concurrent checkMotion answer, every nearest "
-            "answer, the motion counters and the report from the log.",
+            "answer, the motion counters and the report from the log. Further directed ops: prrtrace (all workers pass pRRT's "
+            "unlocked pre-check while the harness holds sol->lock), logpark (a handler that parks inside log(): overlap / "
+            "stale-handler / order / count oracles for every console entry point; model LStep), rng mode 1 (setSeed after first "
+            "use), goallazy (GoalLazySamples: sampling thread, readers, callback addState, stop / restart / destruction), and "
+            "for AnytimePathShortening bestCost_ == cheapest stored path (model AStep).",
     "note": "Trusted: Lean kernel and the three standard axioms; the granularity assumption (std::atomic ops and lock scopes are "
             "indivisible; the C++ memory model is not modelled); the regex extractor (errs towards plain/unguarded, cross-checked by "
             "forced lost updates, directed schedules and TSan); TSan (g++ 12 libtsan) and the sampled schedules for everything about "
